@@ -45,6 +45,24 @@ def zone(spec, text):
     return "must_reject"
 
 
+def eval_layout(ann, m, spec_names):
+    """One built-in layout on the implementation against the model's scheme table entry `m` (correspondence)
+    and the documented layout `spec_names` (the property's oracle).  -> (names, disagreements, failures)"""
+    sch = impl.scheme_by_annotation(ann)
+    names = sch.column_names() if sch is not None else None
+    dis, fails = [], []
+    if sch is not None:
+        classes = [sch.column_class(n).__name__ for n in names]
+        if not m or m["names"] != names or m["classes"] != classes or m["version"] != sch.version():
+            dis.append({"op": "schemes", "annotation": ann,
+                        "model": m and {"n": len(m["names"])}, "impl": {"n": len(names)}})
+    if spec_names != names:
+        fails.append({"what": "layout differs from the documented layout (base order minus filtered, then new columns)",
+                      "kind": "layout", "annotation": ann,
+                      "expected": spec_names, "got": names})
+    return names, dis, fails
+
+
 def structure_cases(ctx, out):
     """mro / layouts: translator + Lean C3 + Lean scheme building vs live introspection."""
     reqs = [{"op": "schemes"}, {"op": "spec.layouts"}]
@@ -58,18 +76,11 @@ def structure_cases(ctx, out):
     py_layouts = {ann: impl.scheme_by_annotation(ann) for ann in impl.builtin_annotations()}
     got = {s["annotation"]: s for s in mo[0]["schemes"]}
     spec = {s["annotation"]: s["names"] for s in mo[1]["layouts"]}
-    for ann, sch in py_layouts.items():
+    for ann in py_layouts:
         out.evaluations += 1
-        names = sch.column_names()
-        classes = [sch.column_class(n).__name__ for n in names]
-        m = got.get(ann)
-        if not m or m["names"] != names or m["classes"] != classes or m["version"] != sch.version():
-            out.disagreements.append({"op": "schemes", "annotation": ann,
-                                      "model": m and {"n": len(m["names"])}, "impl": {"n": len(names)}})
-        if spec.get(ann) != names:
-            out.failures.append({"what": "layout differs from the documented layout (base order minus filtered, then new columns)",
-                                 "kind": "layout", "annotation": ann,
-                                 "expected": spec.get(ann), "got": names})
+        _names, dis, fails = eval_layout(ann, got.get(ann), spec.get(ann))
+        out.disagreements += dis
+        out.failures += fails
         out.nontrivial.add(("layout", ann))
     if set(got) != set(py_layouts):
         out.disagreements.append({"op": "schemes", "model": sorted(got), "impl": sorted(py_layouts)})
@@ -98,14 +109,10 @@ def field_cases(ctx, out, per_sig_uses=1):
     mo = mo[:len(reqs)]
     for r, m, s in zip(reqs, mo, spec):
         out.evaluations += 1
-        i = impl.run(r)
-        text = r["text"]
-        z = zone(s, text)
+        e = eval_field(r, m, s)
+        i, z, text = e["impl"], e["zone"], r["text"]
         out.distribution["zone:" + z] += 1
-        accepted = "col" in i and i["col"]["invalid"] is False and i["col"]["cls"] != "MafColumnRecord"
-        # the scheme-level instance check is part of acceptance: a plain MafColumnRecord built by a
-        # class that inherits MafColumnRecord.build is rejected by from_line (checked in line cases)
-        out.distribution["impl:" + ("accept" if accepted else "reject")] += 1
+        out.distribution["impl:" + ("accept" if e["accepted"] else "reject")] += 1
         if has_unmodelled(m):
             out.unmodelled += 1
         elif m != i:
@@ -113,37 +120,49 @@ def field_cases(ctx, out, per_sig_uses=1):
                 out.dontcare += 1
             else:
                 out.disagreements.append({"op": "col.build", "request": r, "model": m, "impl": i})
-        # the property's own oracle on the implementation
-        if z == "must_accept":
-            if not accepted:
-                out.failures.append({"what": "field in the documented domain is rejected", "kind": "reject-valid",
-                                     "scheme": r["scheme"], "column": r["col"], "text": text,
-                                     "expected": s, "got": i})
-            elif i["col"]["value"] != s["value"]:
-                out.failures.append({"what": "accepted field does not carry the value the text denotes",
-                                     "kind": "wrong-value", "scheme": r["scheme"], "column": r["col"],
-                                     "text": text, "expected": s["value"], "got": i["col"]["value"]})
-            out.nontrivial.add((r["scheme"], r["col"], text))
-        elif z == "must_reject":
-            if accepted:
-                out.failures.append({"what": "field outside the documented domain is accepted", "kind": "accept-invalid",
-                                     "scheme": r["scheme"], "column": r["col"], "text": text,
-                                     "expected": s, "got": i})
+        out.failures += e["failures"]
+        if z != "dontcare":
             out.nontrivial.add((r["scheme"], r["col"], text))
         if len(out.samples) < 3 and z != "dontcare":
             out.sample({"op": "col.build", "scheme": r["scheme"], "column": r["col"], "text": text, "zone": z})
 
 
-def check_line(out, ann, line, mode, lineno, i, s, names):
-    """Property oracle for one parsed line on the implementation's answer `i` (spec answer `s`)."""
+def eval_field(r, m, s):
+    """One field (col.build request `r`) on the implementation; the property's oracle against the documented
+    domain `s` (answer of spec.domain).  `m` is the model's answer to `r` (only reported, not part of the oracle)."""
+    i = impl.run(r)
+    text = r["text"]
+    z = zone(s, text)
+    accepted = "col" in i and i["col"]["invalid"] is False and i["col"]["cls"] != "MafColumnRecord"
+    # the scheme-level instance check is part of acceptance: a plain MafColumnRecord built by a
+    # class that inherits MafColumnRecord.build is rejected by from_line (checked in line cases)
+    where = {"scheme": r["scheme"], "column": r["col"], "text": text, "index": r.get("index")}
+    fails = []
+    if z == "must_accept":
+        if not accepted:
+            fails.append(dict(where, what="field in the documented domain is rejected", kind="reject-valid",
+                              expected=s, got=i))
+        elif i["col"]["value"] != s["value"]:
+            fails.append(dict(where, what="accepted field does not carry the value the text denotes",
+                              kind="wrong-value", expected=s["value"], got=i["col"]["value"]))
+    elif z == "must_reject":
+        if accepted:
+            fails.append(dict(where, what="field outside the documented domain is accepted", kind="accept-invalid",
+                              expected=s, got=i))
+    return {"impl": i, "zone": z, "accepted": accepted, "failures": fails}
+
+
+def check_line(fails, ann, line, mode, lineno, i, s, names, history=None):
+    """Property oracle for one parsed line on the implementation's answer `i` (spec answer `s`); failures are
+    appended to `fails`.  `history` = the layouts lines were parsed under earlier in this process (first-use order)."""
     fields = line.rstrip("\r\n").split("\t")
     zones = [zone(f, t) for f, t in zip(s["fields"], fields)] if s["count_ok"] else []
-    where = {"scheme": ann, "line": line, "mode": mode, "lineno": lineno}
+    where = {"scheme": ann, "line": line, "mode": mode, "lineno": lineno, "after_schemes": list(history or [])}
     if not s["count_ok"]:
         ok = ("exc" in i and i["exc"].startswith("MafFormatException:RECORD_MISMATCH_NUMBER_OF_COLUMNS")) if mode == "Strict" \
             else ("rec" in i and ["RECORD_MISMATCH_NUMBER_OF_COLUMNS", lineno] in i["rec"]["errors"] and not i["rec"]["slots"])
         if not ok:
-            out.failures.append(dict(where, what="wrong field count is not reported as such", kind="count", got=i))
+            fails.append(dict(where, what="wrong field count is not reported as such", kind="count", got=i))
         return "count"
     if "dontcare" in zones:
         # the verdict on the whole line is open; per-field binding of the must-accept fields is still checked
@@ -152,36 +171,36 @@ def check_line(out, ann, line, mode, lineno, i, s, names):
     any_reject = any(z == "must_reject" for z in zones)
     if mode == "Strict":
         if all_accept and "exc" in i:
-            out.failures.append(dict(where, what="conforming line rejected in Strict mode", kind="reject-valid", got=i))
+            fails.append(dict(where, what="conforming line rejected in Strict mode", kind="reject-valid", got=i))
         if any_reject and not ("exc" in i and i["exc"].startswith("MafFormatException:")):
-            out.failures.append(dict(where, what="non-conforming line not refused with the format exception in Strict mode",
+            fails.append(dict(where, what="non-conforming line not refused with the format exception in Strict mode",
                                      kind="accept-invalid", got=i,
                                      column=names[zones.index("must_reject")]))
         if "exc" in i:
             return "strict-exc"
     if "rec" not in i:
-        out.failures.append(dict(where, what="unexpected exception", kind="exception", got=i))
+        fails.append(dict(where, what="unexpected exception", kind="exception", got=i))
         return "exc"
     rec = i["rec"]
     if all_accept and rec["errors"]:
-        out.failures.append(dict(where, what="conforming line reports validation errors", kind="reject-valid", got=rec["errors"]))
+        fails.append(dict(where, what="conforming line reports validation errors", kind="reject-valid", got=rec["errors"]))
     if any_reject and not rec["errors"]:
-        out.failures.append(dict(where, what="non-conforming line reports no validation error", kind="accept-invalid"))
+        fails.append(dict(where, what="non-conforming line reports no validation error", kind="accept-invalid"))
     slots = rec["slots"]
     for k, (z, f, t) in enumerate(zip(zones, s["fields"], fields)):
         slot = slots[k] if k < len(slots) else None
         if z == "must_accept":
             if slot is None or slot["key"] != names[k] or slot["index"] != k or slot["value"] != f["value"]:
-                out.failures.append(dict(where, what="field %d is not bound to its column name with the value the text denotes" % k,
+                fails.append(dict(where, what="field %d is not bound to its column name with the value the text denotes" % k,
                                          kind="binding", column=names[k], text=t, expected=f["value"], got=slot))
                 break
         elif z == "must_reject":
             if slot is not None:
-                out.failures.append(dict(where, what="field outside its domain is exposed as a value",
+                fails.append(dict(where, what="field outside its domain is exposed as a value",
                                          kind="exposed", column=names[k], text=t, got=slot))
                 break
             if not any(names[k] in msg for msg in i.get("messages", [names[k]])):
-                out.failures.append(dict(where, what="rejected field is not reported against its column",
+                fails.append(dict(where, what="rejected field is not reported against its column",
                                          kind="unreported", column=names[k], text=t))
                 break
     return "clean" if not rec["errors"] else "errors"
@@ -209,26 +228,46 @@ def line_cases(ctx, out, per_scheme):
     keys = list(uniq)
     mo = ctx.driver.run(reqs + [uniq[k] for k in keys])
     specs = dict(zip(keys, mo[len(reqs):]))
+    history = []      # layouts parsed under so far in this process, in order of first use
     for r, m, (ann, line, mode, lineno, names) in zip(reqs, mo, meta):
         out.evaluations += 1
-        i = impl_from_line(r)
-        s = specs[(ann, line)]
-        i_cmp = {k: v for k, v in i.items() if k != "messages"}
-        fields = line.rstrip("\r\n").split("\t")
-        dc = any(colcases.dontcare_numeric(p) or colcases.dontcare_uuid(p) for f in fields for p in [f] + f.split(";"))
-        if has_unmodelled(m):
+        e = eval_line(r, names, m, specs[(ann, line)], history)
+        if ann not in history:
+            history.append(ann)
+        if e["model"] == "unmodelled":
             out.unmodelled += 1
-        elif m != i_cmp:
-            if dc:
-                out.dontcare += 1
-            else:
-                out.disagreements.append({"op": "rec.from_line", "request": {k: r[k] for k in ("scheme", "line", "mode", "lineno")},
-                                          "model": summarize(m), "impl": summarize(i_cmp)})
-        kind = check_line(out, ann, line, mode, lineno, i, s, names)
+        elif e["model"] == "dontcare":
+            out.dontcare += 1
+        elif e["model"] == "differs":
+            out.disagreements.append(e["disagreement"])
+        out.failures += e["failures"]
+        kind = e["outcome"]
         out.distribution["line:" + kind] += 1
         out.nontrivial.add((ann, line))
         if len(out.samples) < 6 and kind in ("errors", "count"):
             out.sample({"op": "rec.from_line", "scheme": ann, "mode": mode, "line": line[:160], "outcome": kind})
+
+
+def eval_line(r, names, m, s, history=None):
+    """One line in one mode (rec.from_line request `r`) on the implementation: comparison with the model's answer
+    `m` (correspondence) and the property's oracle against the documented reading `s` (answer of spec.line)."""
+    ann, line, mode, lineno = r["scheme"], r["line"], r["mode"], r["lineno"]
+    i = impl_from_line(r)
+    i_cmp = {k: v for k, v in i.items() if k != "messages"}
+    fields = line.rstrip("\r\n").split("\t")
+    dc = any(colcases.dontcare_numeric(p) or colcases.dontcare_uuid(p) for f in fields for p in [f] + f.split(";"))
+    e = {"impl": i, "model": "same", "failures": []}
+    if has_unmodelled(m):
+        e["model"] = "unmodelled"
+    elif m != i_cmp:
+        if dc:
+            e["model"] = "dontcare"
+        else:
+            e["model"] = "differs"
+            e["disagreement"] = {"op": "rec.from_line", "request": {k: r[k] for k in ("scheme", "line", "mode", "lineno")},
+                                 "model": summarize(m), "impl": summarize(i_cmp)}
+    e["outcome"] = check_line(e["failures"], ann, line, mode, lineno, i, s, names, history)
+    return e
 
 
 def summarize(x):
@@ -269,4 +308,90 @@ def search(ctx):
 
 def shrink(ctx, f):
     return f
+
+
+# ------------------------------------------------------------------ replay
+def _short(x, n=400):
+    import json
+    t = x if isinstance(x, str) else json.dumps(x, default=str, ensure_ascii=True)
+    return t if len(t) <= n else t[:n] + "... (%d chars)" % len(t)
+
+
+def _brief(x):
+    if "rec" in x:
+        return {"errors": x["rec"]["errors"], "bound": "%d of %d slots" % (len([c for c in x["rec"]["slots"] if c is not None]), len(x["rec"]["slots"])),
+                "logs": x.get("logs")}
+    return x
+
+
+def warm_up(schemes):
+    """Process history of a line case: parse one line (all fields empty, right count, Silent) under each layout
+    the run had parsed lines under before the case, in the same order of first use."""
+    from maflib.record import MafRecord
+    for ann in schemes:
+        sch = impl.scheme_by_annotation(ann)
+        if sch is None:
+            continue
+        try:
+            MafRecord.from_line("\t".join([""] * len(sch.column_names())), scheme=sch, line_number=1,
+                                validation_stringency=impl.MODES["Silent"])
+        except Exception:  # noqa
+            pass
+
+
+def replay_case(ctx, failure):
+    """Re-evaluate the stored failing input on the current implementation; the failures it produces now
+    ([] = the property holds on it; None = the stored failure lacks the inputs: regenerate from the seed)."""
+    f = failure
+    if f.get("kind") == "layout":
+        ann = f.get("annotation")
+        if ann is None:
+            return None
+        mo = ctx.driver.run([{"op": "schemes"}, {"op": "spec.layouts"}])
+        got = {x["annotation"]: x for x in mo[0]["schemes"]}
+        spec = {x["annotation"]: x["names"] for x in mo[1]["layouts"]}
+        if ann not in spec and impl.scheme_by_annotation(ann) is None:
+            return None       # no such layout on either side: nothing to re-evaluate
+        names, dis, fails = eval_layout(ann, got.get(ann), spec.get(ann))
+        print("replay C01 layout: column names of the built-in layout %s" % ann)
+        print("  implementation: %s" % _short(names))
+        print("  documented layout (model, spec.layouts): %s" % ("the same" if spec.get(ann) == names else _short(spec.get(ann))))
+        print("  model's scheme table: %s" % ("differs from the implementation" if dis else "agrees with the implementation"))
+        return fails
+    if "line" in f:
+        if any(k not in f for k in ("scheme", "mode", "lineno", "after_schemes")):
+            return None
+        ann, line, mode, lineno = f["scheme"], f["line"], f["mode"], f["lineno"]
+        sch = impl.scheme_by_annotation(ann)
+        if sch is None:
+            return None
+        warm_up(f["after_schemes"])
+        r = colcases.from_line_req(ann, line, mode, lineno)
+        sreq = {"op": "spec.line", "scheme": ann, "line": line, "floats": float_table(line.rstrip("\r\n").split("\t"))}
+        m, s = ctx.driver.run([r, sreq])
+        e = eval_line(r, sch.column_names(), m, s, f["after_schemes"])
+        print("replay C01 line: MafRecord.from_line(<%d fields>, scheme=%s, line_number=%d, %s) after lines under %d other layouts"
+              % (len(line.rstrip("\r\n").split("\t")), ann, lineno, mode, len([a for a in f["after_schemes"] if a != ann])))
+        print("  line: %s" % _short(line, 300))
+        print("  implementation: %s" % _short(_brief(e["impl"])))
+        print("  model: %s (%s)" % (_short(_brief(m)), {"same": "agrees", "differs": "DIFFERS", "dontcare": "differs in the don't-care zone",
+                                                           "unmodelled": "outside the model"}[e["model"]]))
+        print("  documented reading: count_ok=%s; oracle outcome: %s, %d failure(s)" % (s.get("count_ok"), e["outcome"], len(e["failures"])))
+        return e["failures"]
+    if "text" in f and "column" in f:
+        if any(k not in f for k in ("scheme", "index")):
+            return None
+        r = colcases.build_req(f["scheme"], f["column"], f["text"], f["index"])
+        if impl.scheme_by_annotation(f["scheme"]) is None:
+            return None
+        sreq = {"op": "spec.domain", "scheme": f["scheme"], "col": f["column"], "text": f["text"], "floats": float_table([f["text"]])}
+        m, s = ctx.driver.run([r, sreq])
+        e = eval_field(r, m, s)
+        print("replay C01 field: %s.build(name=%r, value=%r, column_index=%r) under %s"
+              % (impl.class_of(r).__name__, f["column"], f["text"], f["index"], f["scheme"]))
+        print("  implementation: %s -> %s" % (_short(e["impl"]), "accepted" if e["accepted"] else "rejected"))
+        print("  model: %s (%s)" % (_short(m), "agrees" if m == e["impl"] else "differs"))
+        print("  documented domain: %s -> zone %s; %d failure(s)" % (_short(s), e["zone"], len(e["failures"])))
+        return e["failures"]
+    return None
 
